@@ -81,7 +81,7 @@ def boundaries(name):
     import subprocess
     import json
     from symx.run import PY, VERIF
-    code = ("import sys, json; sys.path.insert(0,'/repo'); sys.path.insert(0,%r)\n"
+    code = (("import sys, json; sys.path.insert(0,%r); sys.path.insert(0,%%r)\n" % __import__("symx").REPO) +
             "from harness import edits as E\n"
             "print(json.dumps(E._native_boundaries(%r)))\n") % (VERIF, name)
     out = subprocess.run([PY, "-c", code], capture_output=True, text=True, timeout=60)
